@@ -17,7 +17,12 @@ LEVEL_TEXT = ("Coq theorems over an executable model of the labelled dense matri
               "is an invariant of every history of all 12 operation kinds; generic form = axis-specific form and the dispatch/metadata-reset "
               "tables regenerated from the source by ast satisfy the model's tables; mutating = non-mutating counterpart; two refutations "
               "(one-axis insert/incorp/concat of square-taxa matrices, label loss in DenseSquareTaxaTraitMatrix) and one regression witness "
-              "about the former code of a repaired defect (scalar-index insert on an inner axis). "
+              "about the former code of a repaired defect (scalar-index insert on an inner axis); the kernel expressions of the current "
+              "source (get_axis range test and modulo, stop index and numpy.unique unpacking of group_<axis>, is_grouped_<axis>, default sort keys "
+              "with the group array as primary key, label-argument precedence of adjoin/insert/append/incorp, scalar-index wrap, the whole metadata "
+              "pipeline of the two masked genotyping protocols, block slices of the square adjoin/append) are regenerated on every run "
+              "(Gen/C03_Kernel.v), proved equal to the model's (reflexivity) and the partition/dispatch theorems are restated about them; "
+              "sessions: a history's continuation depends only on the state reached. "
               "The model is tied to the code by evaluating whole operation histories inside Coq against the implementation's state after "
               "every step, plus an independent entity-tracing predicate")
 LEVEL_NOTE = ("trusted: Coq kernel + vm_compute; the hand-written model of numpy.take/delete/insert/append/concatenate/lexsort/unique "
@@ -33,11 +38,19 @@ RULE = ("case = (class, initial matrix given by entity ids per axis + which labe
         "operands 1..3 entities, labels drawn with duplicates or unique, label arrays all/none/random present, index arguments int/slice/list/ndarray/mask "
         "incl. negative and duplicated indices, operands passed as matrix / ndarray+keywords / bare ndarray, both forms of every operation, ~7% "
         "deliberately invalid arguments (out-of-range, wrong axis, missing required array); non-trivial = >= 2 executed steps of which one changes a "
-        "label array with >= 2 distinct values; distinct by SHA-256 of the case")
+        "label array with >= 2 distinct values; distinct by SHA-256 of the case; "
+        "phase 2: ~7% of the steps obtain the object through the library's own routes (copy.copy, copy.deepcopy, .copy(), .deepcopy(), re-assignment of "
+        "every public array through its setter) and the history continues on the copy; every matrix set aside (operand of a non-mutating operation, matrix "
+        "passed as values, original of a copy; the last 4) is re-inspected after every later step (aliasing: in-place writes into shared arrays); derived "
+        "counters (ntaxa/nvrnt/ntrait/nphase, mat_shape, mat_ndim) are observed after every step; 18 (120) histories with one axis of 129..300 entities "
+        "(indices, group lengths and start/stop indices beyond 127 and 255) plus 4 (24) masked genotypings of 257..300 grouped variants; an entry-point audit "
+        "(inspect) fails the run when a public member or parameter of the 13 classes / 3 protocols is neither driven, observed nor listed in SKIPPED")
 TRUSTED = ["numpy primitives are modelled (plan + gather) and compared with the implementation only on generated inputs",
            "label values are shipped as integer codes (names 't007' <-> 7, floats k/8 <-> k, bools <-> 0/1, None <-> -1)",
            "DenseBreedingValueMatrix cells are observed as unscale() rounded to the nearest integer when within 2^-20 relative",
-           "harness/translate/c03_dispatch.py and c03_metareset.py (ast -> Coq tables, fail closed)"]
+           "harness/translate/c03_dispatch.py and c03_metareset.py (ast -> Coq tables, fail closed)",
+           "harness/translate/c03_kernel.py (ast -> Gen/C03_Kernel.v: expressions via translate/pyexpr.py, statement patterns matched literally, fail closed)",
+           "copy steps are the identity of the model (not emitted as model steps; a copy that alters the observable state makes the case disagree)"]
 ASSUMPTIONS = ["valid arguments: indices within range, one label array per field the matrix carries (name arrays may be absent: filled with None), "
                "operands share the entities of the other axes",
                "cells are integers (int8 0..2 for genotype matrices, exact in float64 otherwise); label codes are non-negative"]
@@ -268,7 +281,14 @@ def snap(C, o):
     d["gen_is_grouped"] = g
     if C.get("ploidy") or C.get("phased"):
         d["ploidy"] = int(o.ploidy)
+    # derived counters / shape attributes (a cached value would go stale under in-place operations)
+    cnt = {"mat_shape": [int(x) for x in o.mat_shape], "mat_ndim": int(o.mat_ndim)}
+    for k in C["kinds"]:
+        a = COUNTER.get(k)
+        if a and hasattr(o, a): cnt[a] = int(getattr(o, a))
+    d["counts"] = cnt
     return d
+COUNTER = {"taxa": "ntaxa", "vrnt": "nvrnt", "trait": "ntrait", "phase": "nphase"}
 def _ints(x):
     if isinstance(x, list):
         return [_ints(y) for y in x]
@@ -412,11 +432,40 @@ def apply_genotype(o, op):
 def _exc(e):
     return {"exc": type(e).__name__, "msg": str(e)[:160]}
 
+COPY_MODES = ["copy", "deepcopy", "m_copy", "m_deepcopy", "setters"]
+def apply_copy(C, o, mode):
+    """obtain the object through the library's own copying routes, or re-assign every public array through its setter"""
+    if mode == "copy": return copy.copy(o)
+    if mode == "deepcopy": return copy.deepcopy(o)
+    if mode == "m_copy": return o.copy()
+    if mode == "m_deepcopy": return o.deepcopy()
+    if mode == "setters":
+        for f in fields_of(C):
+            a = getattr(o, f)
+            setattr(o, f, None if a is None else numpy.array(a, copy=True))
+        for k in C["kinds"]:
+            m = KINDS[k]["meta"]
+            if m:
+                for s_ in MSUF:
+                    a = getattr(o, m + "_" + s_)
+                    setattr(o, m + "_" + s_, None if a is None else numpy.array(a, copy=True))
+        if not C.get("bv"):
+            o.mat = numpy.array(o.mat, copy=True)
+        return o
+    raise ValueError(mode)
+
+HOLD = 4
+def _held_ok(held):
+    """every matrix set aside earlier (operand of a non-mutating operation, matrix passed as values, original of a copy)
+    still has the state it had when it was set aside: later operations on derived objects must not reach it (aliasing)"""
+    return all(raw_equal(b, raw_state(Cx, m)) for Cx, m, b in held)
+
 def run_impl(case):
     C = CLASSES[case["cls"]]
     tab = case["tab"]
     cur = make_obj(C, spec_to_state(C, tab, case["init"]), case.get("ploidy"))
     out = {"init": snap(C, cur), "steps": []}
+    held = []
     for op in case["ops"]:
         rec = {}
         k = op["k"]
@@ -429,7 +478,25 @@ def run_impl(case):
             C2 = CLASSES["DensePhasedGenotypeMatrix" if op["prot"] == "masked_phased" else "DenseGenotypeMatrix"]
             rec["self_unchanged"] = raw_equal(before, raw_state(C, cur))
             rec["main"] = snap(C2, new)
+            held = (held + [(C, cur, before)])[-HOLD:]
             C, cur = C2, new
+            rec["held_unchanged"] = _held_ok(held)
+            out["steps"].append(rec)
+            continue
+        if k == "copy":
+            before = raw_state(C, cur)
+            try:
+                new = apply_copy(C, cur, op["mode"])
+            except Exception as e:
+                rec["main"] = _exc(e); out["steps"].append(rec); break
+            rec["main"] = snap(C, new)
+            if new is not cur:
+                rec["self_unchanged"] = raw_equal(before, raw_state(C, cur))
+                rec["fresh"] = not any(x is not None and y is not None and numpy.shares_memory(x, y)
+                                       for x, y in ((getattr(cur, f), getattr(new, f)) for f in fields_of(C)))
+                held = (held + [(C, cur, before)])[-HOLD:]
+            cur = new
+            rec["held_unchanged"] = _held_ok(held)
             out["steps"].append(rec)
             continue
         before = raw_state(C, cur)
@@ -465,9 +532,12 @@ def run_impl(case):
         else:
             if k not in INPLACE:
                 rec["self_unchanged"] = raw_equal(before, raw_state(C, cur))
+                if new is not cur: held.append((C, cur, before))
             rec["main"] = snap(C, new)
             cur = new
         rec["operands_unchanged"] = all(raw_equal(b, raw_state(C, m)) for m, b in track)
+        held = (held + [(C, m, b) for m, b in track])[-HOLD:]
+        rec["held_unchanged"] = _held_ok(held)
         out["steps"].append(rec)
     return out
 
@@ -579,6 +649,9 @@ def spec_step(C, tab, S, op):
     k = op["k"]; kind = op.get("ax")
     if k == "genotype":
         return spec_genotype(C, tab, S, op)
+    if k == "copy":
+        if op.get("mode") not in COPY_MODES: raise Invalid("copy mode")
+        return _clone(S), None
     axes = kind_axes(C, kind)
     if not axes or kind == "free": raise Invalid("no such axis")
     if op["form"] == "g" or op.get("badaxis"):
@@ -706,6 +779,10 @@ def spec_snapshot(C, S):
     d["gen_is_grouped"] = gi
     if C.get("ploidy"): d["ploidy"] = S.get("ploidy", 2)
     if C.get("phased"): d["ploidy"] = len(ents["phase"])
+    cnt = {"mat_shape": list(shape), "mat_ndim": len(shape)}
+    for k in C["kinds"]:
+        if COUNTER.get(k): cnt[COUNTER[k]] = shape[min(kind_axes(C, k))]
+    d["counts"] = cnt
     return d
 
 def partition_ok(labels, name, stix, spix, ln):
@@ -813,6 +890,10 @@ def pred(case, out):
             bad.append("%s: non-mutating operation changed its operand" % name)
         if rec.get("operands_unchanged") is False:
             bad.append("%s: operation changed the matrix passed as values" % name)
+        if rec.get("held_unchanged") is False:
+            bad.append("%s: the operation changed a matrix set aside earlier (an operand / the original of a derived matrix): shared mutable arrays" % name)
+        if rec.get("fresh") is False:
+            bad.append("%s: the copy shares label arrays with its original" % name)
         C2 = CLASSES[T["cls"]]
         exp = spec_snapshot(C2, T)
         if "exc" in main:
@@ -999,6 +1080,8 @@ class _Gen:
         C = CLASSES[S["cls"]]; self.C = C
         if C.get("phased") and r.random() < (0.25 if last else 0.06):
             return {"k": "genotype", "prot": r.choice(["unphased", "masked_phased", "masked_unphased"]), "invert": r.random() < 0.3}
+        if not last and r.random() < 0.07:
+            return {"k": "copy", "mode": r.choice(COPY_MODES)}
         if any(len(S["ents"][n_]) == 0 for n_ in free_names(C)): return None
         kinds = [k for k in C["lkinds"] if self.allowed(S, k)]
         if not kinds: return None
@@ -1063,7 +1146,7 @@ def rebase_like_impl(C, T, op):
     return T
 
 def is_terminal(C, op):
-    if op["k"] == "genotype": return False
+    if op["k"] in ("genotype", "copy"): return False
     kind = op["ax"]
     if C["square"] and kind == "taxa" and op["k"] in ("insert", "incorp", "concat"): return True
     return False
@@ -1178,6 +1261,8 @@ def gen_cross_case(rng, clsname):
         cand = G.one_op(S, last=False)
         if cand is None: break
         if cand["k"] == "genotype" or not cand.pop("_valid", True) or is_terminal(C, cand): continue
+        if cand["k"] == "copy":
+            case["ops"].append(cand); continue
         if grouped and cand["ax"] in grouped and rng.random() < 0.9: continue          # stay on the other axes
         if cand["k"] in ("group", "ungroup", "lexsort"): continue
         try:
@@ -1186,6 +1271,69 @@ def gen_cross_case(rng, clsname):
             continue
         if C.get("bv") and not S.get("unit", True): cand["nocp"] = True
         case["ops"].append(cand); S = rebase_like_impl(C, T, cand); n += 1
+    case["tab"] = G.tab
+    return case
+
+BIG = ["DenseTaxaMatrix", "DenseVariantMatrix", "DenseTaxaVariantMatrix", "DenseGenotypeMatrix", "DensePhasedGenotypeMatrix",
+       "DensePhasedTaxaVariantMatrix"]
+def gen_big_case(rng, clsname, force=None):
+    """one labelled axis longer than a narrow integer type can count (129..300 entities; indices, group start/stop indices and
+    group lengths beyond 127 and 255), the other axes of length 1..2: reorder / group, then select / delete / remove / sort with
+    high and negative indices, or masked genotyping"""
+    G = _Gen(rng, clsname, 4, "quick")
+    C = G.C
+    big = rng.choice([k for k in C["lkinds"] if k in ("taxa", "vrnt")])
+    n = rng.choice([129, 130, 200, 257, 260, 300])
+    if force:                                                 # masked genotyping of > 255 grouped variants, always present
+        big = "vrnt"; n = rng.choice([257, 260, 300])
+    ents = {}
+    for nm in dict.fromkeys(free_names(C)):
+        ents[nm] = list(range(n)) if nm == big else list(range(rng.choice([1, 1, 2])))
+    present = {f: rng.random() < 0.6 for f in fields_of(C)}
+    for f in KINDS[big]["fields"]: present[f] = rng.random() < 0.9
+    present[KINDS[big]["meta"]] = True
+    if big == "vrnt": present["vrnt_mask"] = True
+    G.norigin = n // 64 + 1                                   # fresh operand entities above the initial ones
+    for k in C["kinds"]: G.ensure(k, ents.get(k, []))
+    # few groups, so that group lengths / start indices themselves pass 127 (and 255 for the longest axes)
+    gi = KINDS[big]["fields"].index(KINDS[big]["meta"])
+    ng = rng.choice([1, 2, 2, 3])
+    for e in ents[big]: G.tab[big][str(e)][gi] = 1 + (rng.randrange(ng) if rng.random() < 0.9 else rng.randrange(3))
+    init = {"ents": ents, "present": present}
+    case = {"cls": clsname, "init": init, "ops": []}
+    if C.get("ploidy"): case["ploidy"] = rng.choice([1, 2, 4])
+    S = spec_init(C, G.tab, init)
+    if C.get("ploidy"): S["ploidy"] = case["ploidy"]
+    a = rng.choice(kind_axes(C, big)); nd = len(C["ax"])
+    form = lambda: {"ax": big, "form": rng.choice(["s", "g"]), "gax": rng.choice([a, a - nd])}
+    ops = []
+    if rng.random() < 0.4:
+        p = list(range(n)); rng.shuffle(p)
+        ops.append(dict(form(), k="reorder", idx=p, ik="array"))
+    if rng.random() < 0.85 or force: ops.append(dict(form(), k="group"))
+    hi = lambda: rng.choice([n - 1, n - 2, 128, 127, -1, -n, rng.randrange(128, n), rng.randrange(-n, n)])
+    t = rng.choice(["select", "delete", "remove", "sort", "lexsort", "copy", "adjoin", "append"] + (["genotype", "genotype"] if C.get("phased") and big == "vrnt" else []))
+    if force: t = "genotype"
+    if t == "select": ops.append(dict(form(), k="select", idx=[hi() for _ in range(rng.choice([1, 3, 6]))], ik=rng.choice(["list", "array"])))
+    elif t in ("delete", "remove"):
+        obj = rng.choice([{"t": "int", "v": hi()}, {"t": "list", "v": [hi() for _ in range(3)]}, {"t": "mask", "v": [rng.random() < 0.5 for _ in range(n)]},
+                          {"t": "slice", "v": [rng.choice([None, 100, 130]), rng.choice([None, 256, -1]), rng.choice([None, 2, 3])]}])
+        ops.append(dict(form(), k=t, obj=obj))
+    elif t in ("sort", "lexsort"): ops.append(dict(form(), k=t, keys=None))
+    elif t == "copy": ops.append({"k": "copy", "mode": rng.choice(COPY_MODES)})
+    elif t in ("adjoin", "append"):
+        ops.append(dict(form(), k=t, val=G.operand(S, big, rng.choice([1, 2]), True, reuse_ok=False)))
+    else:
+        ops.append({"k": "genotype", "prot": force or rng.choice(["masked_phased", "masked_unphased"]), "invert": rng.random() < 0.5})
+    if rng.random() < 0.5 and t != "genotype": ops.append(dict(form(), k="group"))
+    for op in ops:
+        Cc = CLASSES[S["cls"]]
+        if Cc.get("bv") and not S.get("unit", True): op["nocp"] = True
+        case["ops"].append(op)
+        try:
+            S, _ = spec_step(Cc, G.tab, S, op)
+        except Invalid:
+            break
     case["tab"] = G.tab
     return case
 
@@ -1205,7 +1353,107 @@ def gen_cases(rng, tier):
     for cn in CROSS:
         for j in range(16 if tier == "quick" else 150):
             cases.append(gen_cross_case(rng, cn))
+    for cn in BIG:
+        for j in range(3 if tier == "quick" else 20):
+            cases.append(gen_big_case(rng, cn))
+    for j in range(2 if tier == "quick" else 12):
+        for prot in ("masked_phased", "masked_unphased"):
+            cases.append(gen_big_case(rng, "DensePhasedGenotypeMatrix", force=prot))
+    audit_entry_points()
     return cases
+
+# ----------------------------------------------------------------------------------------------- entry-point audit (fail closed)
+OPS_ALL = ["adjoin", "delete", "insert", "select", "concat", "append", "remove", "incorp", "lexsort", "reorder", "sort", "group", "ungroup", "is_grouped"]
+# parameters every form of an operation is driven with (label keywords of the kind are added below; `axis` for the generic form)
+OP_PARAMS = {"adjoin": ["values"], "append": ["values"], "insert": ["obj", "values"], "incorp": ["obj", "values"], "delete": ["obj"], "remove": ["obj"],
+             "select": ["indices"], "reorder": ["indices"], "concat": ["mats"], "lexsort": ["keys"], "sort": ["keys"], "group": [], "ungroup": [], "is_grouped": []}
+HAS_LABEL_KW = ("adjoin", "append", "insert", "incorp")
+# public members of the anchored classes that are observed by snap() or used to build / copy objects
+OBSERVED = {"mat", "mat_shape", "mat_ndim", "ntaxa", "nvrnt", "ntrait", "nphase", "ploidy", "copy", "deepcopy", "unscale", "location", "scale",
+            "taxa_axis", "vrnt_axis", "trait_axis", "phase_axis", "square_axes", "square_taxa_axes"} | set(TFIELDS) | set(VFIELDS) | {"trait"} | \
+           {m + "_" + s_ for m in ("taxa_grp", "vrnt_chrgrp") for s_ in MSUF}
+SKIPPED = {
+    # name: reason (not a structural operation of the property statement; covered elsewhere)
+    "acount": "allele statistics: C09", "afixed": "C09", "afreq": "C09", "apoly": "C09", "gtcount": "C09", "gtfreq": "C09", "maf": "C09", "meh": "C09",
+    "tacount": "C09", "tafreq": "C09", "mat_asformat": "format conversion (C09); used by the genotyping protocols, whose results are observed",
+    "mat_format": "C09", "from_vcf": "file input: C16", "from_hdf5": "C16", "to_hdf5": "C16", "from_csv": "C16", "to_csv": "C16", "from_pandas": "C16",
+    "to_pandas": "C16", "from_numpy": "scaling constructor: C15", "interp_genpos": "genetic map interpolation: C11", "interp_xoprob": "C11",
+    "apply_jitter": "numerical conditioning of coancestry matrices: C13", "coancestry": "C13", "kinship": "C13", "inverse": "C13", "from_gmat": "C13",
+    "is_positive_semidefinite": "C13", "max_inbreeding": "C13", "min_inbreeding": "C13", "max": "C13", "min": "C13", "mean": "C13",
+    "targmax": "trait statistics of breeding values: C15", "targmin": "C15", "tmax": "C15", "tmean": "C15", "tmin": "C15", "trange": "C15",
+    "tstd": "C15", "tvar": "C15", "is_square": "shape predicate, no labels involved", "is_square_taxa": "shape predicate, no labels involved",
+    "nsquare": "constant of the class", "nsquare_taxa": "constant of the class", "square_axes_len": "derived from mat_shape (observed)",
+    "square_taxa_axes_len": "derived from mat_shape (observed)",
+}
+_AUDITED = []
+def audit_entry_points():
+    """every public member of the 13 matrix classes and the 3 genotyping protocols is either driven by the generators /
+    observed by snap(), or listed in SKIPPED with a reason; every parameter of a driven method is one the generators supply.
+    A new class member or parameter makes the check fail until it is classified."""
+    if _AUDITED: return
+    import inspect, importlib
+    problems = []
+    for cn, C in CLASSES.items():
+        cls = pycls(C)
+        kinds_of = {"taxa": "taxa", "vrnt": "vrnt", "trait": "trait", "phase": "phase"}
+        for n, v in inspect.getmembers(cls):
+            if n.startswith("_"): continue
+            base, _, suf = n.rpartition("_")
+            op, kind = (base, suf) if (base in OPS_ALL and suf in kinds_of) else ((n, None) if n in OPS_ALL else (None, None))
+            if op is None:
+                if n not in OBSERVED and n not in SKIPPED:
+                    problems.append("%s.%s: public member neither driven/observed nor listed in SKIPPED" % (cn, n))
+                continue
+            if kind is not None and kind not in C["kinds"]:
+                problems.append("%s.%s: operation on an axis kind the class table does not give this class" % (cn, n)); continue
+            if kind is None and not callable(v): continue
+            allowed = set(OP_PARAMS[op]) | {"self", "kwargs"}
+            if kind is None: allowed |= {"axis"}
+            if op in HAS_LABEL_KW:
+                for k2 in (C["kinds"] if kind is None else [kind]): allowed |= set(KINDS[k2]["fields"])
+                # overriding methods of multi-axis classes hand the labels of the other axes through as keywords
+                for k2 in C["kinds"]: allowed |= set(KINDS[k2]["fields"])
+            try:
+                params = set(inspect.signature(v).parameters)
+            except (TypeError, ValueError):
+                problems.append("%s.%s: no signature" % (cn, n)); continue
+            extra = params - allowed
+            if extra: problems.append("%s.%s: parameter(s) %s are not supplied by the generators" % (cn, n, sorted(extra)))
+            missing = set(OP_PARAMS[op]) - params
+            if missing: problems.append("%s.%s: expected parameter(s) %s" % (cn, n, sorted(missing)))
+        # every operation x labelled kind of the class table exists
+        for k2 in C["lkinds"]:
+            for op in ["adjoin", "delete", "insert", "select", "concat", "append", "remove", "incorp"] + \
+                      ([] if k2 == "phase" else ["lexsort", "reorder", "sort"]) + (["group", "ungroup", "is_grouped"] if KINDS[k2]["meta"] else []):
+                if not callable(getattr(cls, "%s_%s" % (op, k2), None)): problems.append("%s: no method %s_%s" % (cn, op, k2))
+    for modn, cn, params in (("pybrops.breed.prot.gt.DenseUnphasedGenotyping", "DenseUnphasedGenotyping", set()),
+                             ("pybrops.breed.prot.gt.DenseMaskedPhasedGenotyping", "DenseMaskedPhasedGenotyping", {"invert"}),
+                             ("pybrops.breed.prot.gt.DenseMaskedUnphasedGenotyping", "DenseMaskedUnphasedGenotyping", {"invert"})):
+        mod = importlib.import_module(modn)
+        pub = [n for n, v in inspect.getmembers(mod, inspect.isclass) if v.__module__ == modn]
+        if pub != [cn]: problems.append("%s: classes %s (expected [%s])" % (modn, pub, cn))
+        cls = getattr(mod, cn)
+        got = set(inspect.signature(cls.__init__).parameters) - {"self", "kwargs"}
+        if got != params: problems.append("%s.__init__: parameters %s (driven: %s)" % (cn, sorted(got), sorted(params)))
+        got = set(inspect.signature(cls.genotype).parameters) - {"self", "kwargs"}
+        if got != {"pgmat", "miscout"}: problems.append("%s.genotype: parameters %s" % (cn, sorted(got)))
+        for n, v in inspect.getmembers(cls):
+            if not n.startswith("_") and n not in ("genotype", "invert"): problems.append("%s.%s: unclassified public member" % (cn, n))
+    # every anchored module defines exactly the class the table drives (or is listed here)
+    for C in CLASSES.values():
+        mod = importlib.import_module(C["mod"])
+        pub = [n for n, v in inspect.getmembers(mod, inspect.isclass) if v.__module__ == C["mod"]]
+        if C["pyname"] not in pub: problems.append("%s: class %s not defined there" % (C["mod"], C["pyname"]))
+        for n in pub:
+            if n != C["pyname"]: problems.append("%s: additional public class %s" % (C["mod"], n))
+        fns = [n for n, v in inspect.getmembers(mod, inspect.isfunction) if v.__module__ == C["mod"] and not n.startswith("_")]
+        for n in fns:
+            if not (n.startswith("check_") or n.startswith("is_")): problems.append("%s: unclassified public function %s" % (C["mod"], n))
+    mod = importlib.import_module("pybrops.popgen.cmat.DenseCoancestryMatrix")
+    if "DenseCoancestryMatrix" not in dir(mod): problems.append("DenseCoancestryMatrix missing")
+    if problems:
+        raise AssertionError("C03 entry-point audit (classify in harness/props/c03.py: generators, OBSERVED or SKIPPED): " + "; ".join(problems[:12]))
+    _AUDITED.append(True)
 
 def search_cases(rng):
     return gen_cases(rng, "thorough")
@@ -1323,9 +1571,9 @@ def _obs(C, rec):
     return "(%s, %s, %s)" % (_st(C, m), ret, g)
 
 def translate(repo, gen_dir):
-    """regenerate the two source tables (fail closed: exceptions propagate to check.py)"""
-    from translate import c03_dispatch, c03_metareset
-    return [c03_dispatch.translate(repo, gen_dir), c03_metareset.translate(repo, gen_dir)]
+    """regenerate the two source tables and the kernel expressions (fail closed: exceptions propagate to check.py)"""
+    from translate import c03_dispatch, c03_metareset, c03_kernel
+    return [c03_dispatch.translate(repo, gen_dir), c03_metareset.translate(repo, gen_dir), c03_kernel.translate(repo, gen_dir)]
 
 def emit_case(case, out):
     if "exc" in out:
@@ -1338,6 +1586,11 @@ def emit_case(case, out):
         Cc = C
         prev = out["init"]
         for op, rec in zip(case["ops"], out["steps"]):
+            if op["k"] == "copy":
+                # the model has no copy step: a copy is the identity on the observable state, so the next model step starts
+                # from the state before the copy; a copy that raises or alters the state shows up here / in the next step
+                if "exc" in rec["main"] or diff_snap(prev, rec["main"]): return "false"
+                continue
             hops.append(_hop(Cc, tab, op, prev))
             if "exc" in rec["main"]:
                 raised = True; break
